@@ -57,7 +57,9 @@ func (s *Service) HandleHeadEvent(event *apiv1.Event) {
 		return
 	}
 
+	s.reorgMutex.Lock()
 	s.lastBlockRoot = data.Block
+	s.reorgMutex.Unlock()
 	epoch := s.chainTimeService.SlotToEpoch(data.Slot)
 
 	monitorBlockDelay(uint(uint64(data.Slot)%s.slotsPerEpoch), time.Since(s.chainTimeService.StartOfSlot(data.Slot)))
@@ -72,7 +74,9 @@ func (s *Service) HandleHeadEvent(event *apiv1.Event) {
 		}
 	}
 
+	s.reorgMutex.Lock()
 	s.checkEventForReorg(ctx, epoch, data.Slot, data.PreviousDutyDependentRoot, data.CurrentDutyDependentRoot)
+	s.reorgMutex.Unlock()
 
 	s.fastTrackJobs(ctx, data.Slot)
 
